@@ -185,7 +185,7 @@ def text_stream(rng, n_valid, n_malformed):
     while len(valid) < n_valid:
         if len(valid) % 4 == 3:
             # the structured families of the LR pools as well (every stage sees them: C07, C14 …)
-            g = rng.choice([gen.context_grammar, gen.wave_grammar, gen.sequence_grammar, gen.nesting_grammar, gen.layered_grammar])(rng, derive=rng.random() < 0.5)
+            g = rng.choice([gen.context_grammar, gen.wave_grammar, gen.sequence_grammar, gen.nesting_grammar, gen.layered_grammar, gen.dispatch_grammar])(rng, derive=rng.random() < 0.5)
             valid.append(gen.render(g, rng if rng.random() < 0.5 else None))
             continue
         g = gen.random_grammar(rng, names=rng.choice(["plain", "adversarial"]), payload="mixed", derive=rng.random() < 0.5)
@@ -230,7 +230,20 @@ def run_C08(rep, tier, rng):
         if cp < 0x3100:
             single.append("#[" + c + "]" + c + ":")
             single.append("//" + c + "\n_")
-    texts = corpus("C08") + valid + mal + gen.keyword_probes() + single
+    # every tokenizer state × every next character: the character behind a prefix that leaves the tokenizer in each of
+    # its states (start, after `/`, inside an identifier, after `$`, inside a terminal identifier, after `:`, after `#`,
+    # inside an attribute, inside nested brackets, inside a comment, after `_`, after `$_`), alone and followed by more
+    prefixes = ["", "/", "ab", "$", "$ab", ":", "#", "#[", "#[(", "//", "_", "$_", "a9", "::", "$A_"]
+    lim = 0x250 if tier == "quick" else 0x3100
+    state_char = []
+    for cp in range(lim):
+        if 0xD800 <= cp < 0xE000:
+            continue
+        c = chr(cp)
+        for pre in prefixes:
+            state_char.append(pre + c)
+            state_char.append(pre + c + "x ")
+    texts = corpus("C08") + valid + mal + gen.keyword_probes() + state_char + single
     reqs = [kv.hexs(t) for t in texts]
     impl = [kv.canon_panic(x) for x in kv.run_impl("tokenize", reqs)]
     model = [kv.canon_panic(x) for x in kv.run_model("tokenize", reqs)]
@@ -542,6 +555,10 @@ def grammar_pool(rng, n_random, usize=True, names="plain", max_nt=4, max_t=4, ma
         if k % 4 == 1:
             items = gen.layered_grammar(rng)
             out.append((f"layered{k}", items, gen.render(items), gen.to_oracle(items)))
+            continue
+        if k % 16 == 12:
+            items = gen.dispatch_grammar(rng)
+            out.append((f"dispatch{k}", items, gen.render(items), gen.to_oracle(items)))
             continue
         if k % 8 == 4:
             items = gen.context_grammar(rng)
